@@ -10,10 +10,13 @@ Z1 == {[init |-> a, trans |-> <<[at |-> t, off |-> b]>>] : a \in Offs, b \in Off
 \* two transitions: big jumps two days apart (date-line style skip and the reverse), small DST-like pairs two hours apart
 Z2 == {[init |-> a, trans |-> <<[at |-> 0, off |-> b], [at |-> 2 * 86400, off |-> c]>>] : a \in {0, -5 * H, -10 * H}, b \in {H, -4 * H, 14 * H, 16 * H}, c \in {0, -5 * H, -10 * H}}
       \cup {[init |-> a, trans |-> <<[at |-> 0, off |-> a + d1], [at |-> 7200, off |-> a + d1 + d2]>>] : a \in {0, -5 * H}, d1 \in {H, -H, 1800}, d2 \in {H, -H, -1800}}
-QZones == Z0 \cup {z \in Z1 : z.init # z.trans[1].off} \cup {z \in Z2 : z.init # z.trans[1].off /\ z.trans[1].off # z.trans[2].off}
+\* a repeated interval of 12 s whose two offsets print as the same minute (+01:00:12 -> +01:00, as Africa/Ndjamena in 1911): an explicit
+\* +01:00 matches the EARLIER instant (after rounding) before the later one (exactly) - candidates are tried in order
+ZSameMinute == {[init |-> H + 12, trans |-> <<[at |-> 7200, off |-> H]>>], [init |-> -(H + 12), trans |-> <<[at |-> 7200, off |-> -(H + 20)]>>]}
+QZones == ZSameMinute \cup Z0 \cup {z \in Z1 : z.init # z.trans[1].off} \cup {z \in Z2 : z.init # z.trans[1].off /\ z.trans[1].off # z.trans[2].off}
 Grid(lo, hi, step) == {lo + k * step : k \in 0..((hi - lo) \div step)}
 QWalls == Grid(-2 * 86400, 4 * 86400, 1800) \cup {-17762, 7199, 7200, 7201}
-QIWalls == Grid(-20 * H, 20 * H, 3 * H) \cup Grid(2 * 86400 - 16 * H, 2 * 86400 + 16 * H, 4 * H) \cup {7199, 7200, -17762}
+QIWalls == {7200 + H + 5, 7200 - H - 15} \cup Grid(-20 * H, 20 * H, 3 * H) \cup Grid(2 * 86400 - 16 * H, 2 * 86400 + 16 * H, 4 * H) \cup {7199, 7200, -17762}
 GWalls == Grid(-86400 - 12 * H, 3 * 86400, 1800) \cup {-17762, 7199, 7200, 7201}
 QInstants == Grid(-86400 - 3600, 2 * 86400 + 3600, 3600) \cup {-1, 0, 1, 7199, 7200}
 CloseTag == IF Classify(last.z, last.w) = "gap" /\ CloseTransitions(last.z) THEN "/close-transitions" ELSE ""
